@@ -522,14 +522,17 @@ def check_main(prop, tier, seed, nworkers=None):
     if harness_fail:
         for msg in harness_fail[:5]:
             print("HARNESS-ERROR: %s" % msg)
-        return 2
+        if not fresh:
+            return 2
+        # violations found in the runs that did complete stand on their own (each has a replay file); they are reported
+        # below with exit code 1, the harness errors above stay visible
     gate = getattr(mod, "sanity_gate", None)
     if gate is not None:
         problems = gate(tier, total)
         if problems and not os.environ.get("VERIF_MAX_INDEX"):
             for msg in problems:
                 print("%s: sanity gate: %s" % ("HARNESS-ERROR" if tier == "thorough" else "warning", msg))
-            if tier == "thorough":
+            if tier == "thorough" and not fresh:
                 # a rare-condition probe stuck at zero over a whole thorough run means the workload cannot reach it
                 return 2
     if fresh:
